@@ -36,7 +36,16 @@ RULES["ops"] = ("one session = one seeded plan of 8-40 caller actions over a sha
                 "function call (36 public functions), each followed by a ledger check over every caller-owned array; non-trivial = at "
                 "least one library call judged; distinct = distinct fingerprints of (classes touched, compressed action sequence, "
                 "operator signatures)")
+RULES["lls"] = ("one session = one seeded plan of a LinearLeastSquares run: solver (None/CG/GM/PDHG/ADMM) x lamda x z x proxg "
+                "(none/l1/l2/box) x G (none/dense/finite difference) x operator A (dense MatMul, Identity, Reshape, Transpose, Multiply, "
+                "FFT*Multiply, Resize, ArrayToBlocks tiling and overlapping) x P/alpha/tau/sigma/rho given or defaulted x initial x x "
+                "accelerate, real or complex data, deliberately unsupported combinations; executed under a seeded global-RNG history, a "
+                "simulated clock and a simulated stderr with planned write faults, optionally followed by a twin run (other RNG history / "
+                "fault-free); non-trivial = a run that was judged against the certified optimum, rejected as unsupported, or aborted by a "
+                "propagating fault; distinct = distinct fingerprints of (solver, effective solver, A kind, g, G, lamda>0, z, x, P, steps, "
+                "accelerate, rho, field, progress bar, twin, n, fault kinds)")
 SIMTIME_UNIT = {
+    "lls": "simulated seconds of the App.run clock",
     "ops": "caller actions (no clock in this world; logical steps)",
     "rng": "history actions (no clock in this world; logical steps)",
     "stop": "simulated seconds of the App.run clock (sum of planned clock increments over all reads)",
@@ -44,6 +53,13 @@ SIMTIME_UNIT = {
     "cg": "solver updates (this world has no clock; logical steps are reported)",
 }
 ASSUMPTIONS = {
+    "lls": [
+        "objective evaluated by the harness from dense matrices built from the operators' definitions, never by calling sigpy",
+        "reference optimum is KKT-certified (direct, change of variables for invertible G, dual box QP for finite-difference TV); uncertified instances are discarded and counted",
+        "threshold: F(x) - F* <= 1e-6 (F(0) - F* + 1) with fixed budgets (CG n+5, GM 4000, PDHG 5000, ADMM 1500 x 30 CG); worst observed 6e-3 of the threshold",
+        "operators are generated with full column rank and cond <= 30 so the budgets are meaningful",
+        "the ledger is verified after each of the first 50 updates and then every 97th",
+    ],
     "ops": [
         "a call that raises on a shape-valid input is recorded (probes.rejected), not judged: it returns no wrong data",
         "linearity tolerance 1e-10 when every array is complex double, 1e-4 when any stage is single precision or an input is real (fft casts real input to complex64)",
